@@ -445,3 +445,102 @@ pub assume_specification[ <std::path::PathBuf as core::ops::Deref>::deref ](p: &
 // file system and the options (--keyed / --derive-key / --no-mmap: fixed in Args) do not change during the run, so
 // this is a function; that the stream IS the BLAKE3 output of the file's bytes is C01/C02/C11 on the blake3 crate.
 pub uninterp spec fn sp_fs_stream(path: Seq<char>) -> Option<int>;
+
+// an operation of the environment failed that the model does not describe: the command line could not be parsed, the
+// key could not be read, the thread pool could not be built, a read error in the middle of a checkfile
+pub uninterp spec fn sp_env_failed() -> bool;
+
+// ---- a checkfile as a source of lines (C12) ---------------------------------------------------------------
+// check_one_checkfile's reader selection (`-` = stdin, else File::open(path)?; a BufReader over `&mut dyn Read`) is
+// outside Verus (unsizing to `&mut dyn Read`); the overlay replaces exactly that prologue by vf_open_checkfile(path)?
+// (stated in the evidence); the LOOP of the function is the real code. ASSUMED: BufRead::read_line appends the next
+// line including its terminator and returns its byte length (> 0), or returns Ok(0) at end of input and appends
+// nothing, or fails; the checkfile's text does not change during the run (sp_checkfile_lines).
+pub uninterp spec fn sp_checkfile_lines(path: Seq<char>) -> Option<Seq<Seq<char>>>;
+
+#[verifier::external_body]
+pub struct VfLineReader {
+    _p: u8,
+}
+
+impl VfLineReader {
+    pub uninterp spec fn rest(&self) -> Seq<Seq<char>>;
+
+    #[verifier::external_body]
+    pub fn read_line(&mut self, buf: &mut String) -> (r: VfResult<usize>)
+        ensures
+            match r {
+                Ok(n) => if old(self).rest().len() == 0 {
+                    n == 0 && final(self).rest() == old(self).rest() && final(buf)@ == old(buf)@
+                } else {
+                    n > 0 && final(self).rest() == old(self).rest().skip(1) && final(buf)@ == old(buf)@ + old(
+                        self,
+                    ).rest()[0]
+                },
+                Err(_) => final(self).rest().len() <= old(self).rest().len() && sp_env_failed(),
+            },
+    {
+        unimplemented!()
+    }
+}
+
+#[verifier::external_body]
+pub fn vf_open_checkfile(path: &std::path::Path) -> (r: VfResult<VfLineReader>)
+    ensures
+        match r {
+            Ok(b) => sp_checkfile_lines(sp_path_lossy(path)) == Some(b.rest()),
+            Err(_) => sp_checkfile_lines(sp_path_lossy(path)) is None,
+        },
+{
+    unimplemented!()
+}
+
+// ---- main() (C12): the thread pool and the process's exit status ---------------------------------------------
+// rayon_core's pool: `install(f)` runs `f` on the pool and returns its result (ASSUMED; the overlay resolves
+// `thread_pool.install(|| BODY)` to `(BODY)`, so a `?` inside BODY leaves main with the same Err the closure would
+// have returned through install).
+pub mod rayon_core {
+    use vstd::prelude::*;
+    use crate::*;
+
+    #[verifier::external_body]
+    pub struct ThreadPoolBuilder {
+        _p: u8,
+    }
+
+    #[verifier::external_body]
+    pub struct ThreadPool {
+        _p: u8,
+    }
+
+    impl ThreadPoolBuilder {
+        #[verifier::external_body]
+        pub fn new() -> ThreadPoolBuilder {
+            unimplemented!()
+        }
+
+        #[verifier::external_body]
+        pub fn num_threads(self, n: usize) -> ThreadPoolBuilder {
+            unimplemented!()
+        }
+
+        #[verifier::external_body]
+        pub fn build(self) -> (r: VfResult<ThreadPool>)
+            ensures
+                r is Err ==> sp_env_failed(),
+        {
+            unimplemented!()
+        }
+    }
+}
+
+// The exit status of the process is modelled by main's result: Ok(()) = status 0, Err = a non-zero status (std: a
+// `main` returning Err prints it and exits with status 1; `process::exit(c)` exits with c). The overlay resolves
+// `std::process::exit(c)` to `return vf_process_exit(c)`.
+#[verifier::external_body]
+pub fn vf_process_exit(code: i32) -> (r: VfResult<()>)
+    ensures
+        r is Ok <==> code == 0,
+{
+    unimplemented!()
+}
